@@ -160,6 +160,8 @@ pub struct WriteProg {
     pub tags: Vec<&'static str>,
     /// the program changes the document (not identity / navigation)
     pub is_write: bool,
+    /// for a pure navigation program: the path it selects
+    pub nav_path: Option<Vec<Seg>>,
 }
 
 /// Special paths of the rendered document (from the G-yaml span table).
@@ -299,6 +301,7 @@ impl<'a> WCtx<'a> {
             1 => {
                 let (p, tag, _) = self.pick_path(u, true);
                 w.text = path_text(&p);
+                w.nav_path = Some(p.clone());
                 w.tags.push("navigate");
                 w.tags.push(tag);
             }
